@@ -5,8 +5,8 @@ M-SCANX: an executable model of the whole scanner — `(*Lexer).Lex` of the rage
 internal/scanner/scanner.go plus the hand-written glue of lexer.go and newline.go.
 
 Control follows ragel's `-G2` goto code: `_resume` / `_again` dispatch on `cs`; `stN` (to-state action,
-advance, end-of-input test), `st_case_N` (from-state action, transition), `trM` (action block),
-`_test_eof` (end-of-input table), `_out` (epilogue).  The transition function is Gen/ScanDFA.lean, the
+advance, end-of-input test), `st_case_N` (from-state action, transition d), `trM` (action block),
+`_test_eof` (end-of-input table), `_out` (epilogue).  The transition d function is Gen/ScanDFA.lean, the
 action blocks, entry / exit actions and the end-of-input table are Gen/ScanCode.lean, both rewritten by
 gofacts from the current scanner.go on every run; the glue functions are modelled here (array
 versions of Model/Glue.lean, which is tied on its own by diff-glue).  A read or slice that would
@@ -30,7 +30,7 @@ inductive SC where
   | not (a : SC)
   | parseOk                        -- err == nil after strconv.ParseInt
   | docFlag
-  | heredocEnd (e : SE)            -- lex.isHeredocEnd(e)
+  | heredocEnd (e : SE)            -- lex.isHeredocEnd d(e)
   | varStart (e : SE)              -- isValidVarNameStart(byte e)
   | sliceIs (a b : SE) (lit : List Nat)   -- string(lex.data[a:b]) == lit
   deriving Repr, Inhabited
@@ -66,8 +66,9 @@ inductive PC where
   | resume | again | st (n : Nat) | stCase (n : Nat) | tr (code : Nat) | testEof | out
   deriving Repr, Inhabited, DecidableEq
 
+/-- the scanner's mutable state.  The input bytes are NOT part of it: every function below takes them as a
+    separate, read-only argument `d`, so that "the scanner never modifies its input" holds by construction. -/
 structure LexSt where
-  data : Array UInt8
   ge73 : Bool                      -- version >= 7.3 (flexible heredoc terminator)
   p : Int := 0
   pe : Int
@@ -93,13 +94,13 @@ structure LexSt where
 
 namespace LexSt
 
-def rdA (s : LexSt) (i : Int) : Option UInt8 := if i < 0 then none else s.data[i.toNat]?
+def rdA (_s : LexSt) (d : Array UInt8) (i : Int) : Option UInt8 := if i < 0 then none else d[i.toNat]?
 
 def setFault (s : LexSt) (m : String) : LexSt := if s.fault.isSome then s else { s with fault := some m }
 
 /-- lex.data[i] as a number; out of range is Go's index panic -/
-def byteAt (s : LexSt) (i : Int) : LexSt × Int :=
-  match s.rdA i with
+def byteAt (s : LexSt) (d : Array UInt8) (i : Int) : LexSt × Int :=
+  match s.rdA d i with
   | some b => (s, b.toNat)
   | none => (s.setFault s!"index {i}", 0)
 
@@ -107,110 +108,113 @@ def getLine (s : LexSt) (p : Int) : Nat := NL.getLine s.nl p.toNat
 
 end LexSt
 
+section
+variable (d : Array UInt8)
+
 def evalSE : SE → LexSt → LexSt × Int
   | .p, s => (s, s.p) | .pe, s => (s, s.pe) | .ts, s => (s, s.ts) | .te, s => (s, s.te)
-  | .lblS, s => (s, s.lblS) | .lblE, s => (s, s.lblE) | .top, s => (s, s.top) | .len, s => (s, s.data.size)
+  | .lblS, s => (s, s.lblS) | .lblE, s => (s, s.lblE) | .top, s => (s, s.top) | .len, s => (s, d.size)
   | .lit n, s => (s, n)
   | .add a b, s => let (s, x) := evalSE a s; let (s, y) := evalSE b s; (s, x + y)
   | .sub a b, s => let (s, x) := evalSE a s; let (s, y) := evalSE b s; (s, x - y)
-  | .at e, s => let (s, i) := evalSE e s; s.byteAt i
+  | .at e, s => let (s, i) := evalSE e s; s.byteAt d i
 
 def isValidVarNameStart (r : Int) : Bool := (65 ≤ r && r ≤ 90) || (97 ≤ r && r ≤ 122) || r == 95 || r ≥ 128
 def isValidVarName (r : Int) : Bool := isValidVarNameStart r || (48 ≤ r && r ≤ 57)
 
 def sliceEqA (s : LexSt) (p : Nat) (label : List UInt8) : Bool :=
-  (List.range label.length).all (fun k => s.data[p + k]? == label[k]?)
+  (List.range label.length).all (fun k => d[p + k]? == label[k]?)
 
 /-- isHeredocEndBefore73 -/
 def heredocEndBefore73 (s : LexSt) (p : Int) : LexSt × Bool := Id.run do
-  let (s, a) := s.byteAt (p - 1)
+  let (s, a) := s.byteAt d (p - 1)
   if a != 13 && a != 10 then return (s, false)
   let l : Int := s.label.length
-  let n : Int := s.data.size
+  let n : Int := d.size
   if n < p + l then return (s, false)
   let mut s := s
   if n > p + l then
-    let (s', c) := s.byteAt (p + l)
+    let (s', c) := s.byteAt d (p + l)
     s := s'
     if c != 59 && c != 13 && c != 10 then return (s, false)
   if n > p + l + 1 then
-    let (s', c) := s.byteAt (p + l)
+    let (s', c) := s.byteAt d (p + l)
     s := s'
     if c == 59 then
-      let (s'', d) := s.byteAt (p + l + 1)
+      let (s'', d) := s.byteAt d (p + l + 1)
       s := s''
       if d != 13 && d != 10 then return (s, false)
   if p < 0 then return (s.setFault "slice", false)
-  return (s, sliceEqA s p.toNat s.label)
+  return (s, sliceEqA d s p.toNat s.label)
 
 def skipBlanksA (s : LexSt) (p : Nat) : Nat → Nat
   | 0 => p
-  | f + 1 => match s.data[p]? with
+  | f + 1 => match d[p]? with
     | some c => if c == 32 || c == 9 then skipBlanksA s (p + 1) f else p
     | none => p
 
 /-- isHeredocEndSince73: may move lex.p -/
 def heredocEndSince73 (s : LexSt) (p : Int) : LexSt × Bool := Id.run do
-  let (s, a) := s.byteAt (p - 1)
+  let (s, a) := s.byteAt d (p - 1)
   if a != 13 && a != 10 then return (s, false)
-  if p == (s.data.size : Int) then return (s, false)
+  if p == (d.size : Int) then return (s, false)
   if p < 0 then return (s.setFault "index", false)
-  let q := skipBlanksA s p.toNat s.data.size
+  let q := skipBlanksA d s p.toNat d.size
   let l := s.label.length
-  if s.data.size < q + l then return (s, false)
-  if s.data.size > q + l then
-    let (s', c) := s.byteAt ((q + l : Nat) : Int)
+  if d.size < q + l then return (s, false)
+  if d.size > q + l then
+    let (s', c) := s.byteAt d ((q + l : Nat) : Int)
     if isValidVarName c then return (s', false)
-  if sliceEqA s q s.label then return ({ s with p := q }, true)
+  if sliceEqA d s q s.label then return ({ s with p := q }, true)
   return (s, false)
 
 def isHeredocEnd (s : LexSt) (p : Int) : LexSt × Bool :=
-  if s.ge73 then heredocEndSince73 s p else heredocEndBefore73 s p
+  if s.ge73 then heredocEndSince73 d s p else heredocEndBefore73 d s p
 
 /-- `data[p-1] == '\\' && data[p-2] != '\\'` -/
 def escapedA (s : LexSt) : LexSt × Bool :=
-  let (s, a) := s.byteAt (s.p - 1)
+  let (s, a) := s.byteAt d (s.p - 1)
   if a == 92 then
-    let (s, b) := s.byteAt (s.p - 2)
+    let (s, b) := s.byteAt d (s.p - 2)
     (s, b != 92)
   else (s, false)
 
 def isNotStringVar (s : LexSt) : LexSt × Bool := Id.run do
-  let (s, esc) := escapedA s
+  let (s, esc) := escapedA d s
   if esc then return (s, true)
-  if (s.data.size : Int) ≤ s.p + 1 then return (s, true)
-  let (s, c) := s.byteAt s.p
-  let (s, d) := s.byteAt (s.p + 1)
+  if (d.size : Int) ≤ s.p + 1 then return (s, true)
+  let (s, c) := s.byteAt d s.p
+  let (s, d) := s.byteAt d (s.p + 1)
   if c == 36 && (d == 123 || isValidVarNameStart d) then return (s, false)
   if c == 123 && d == 36 then return (s, false)
   return (s, true)
 
 def isNotStringEnd (s : LexSt) (q : Int) : LexSt × Bool :=
-  let (s, esc) := escapedA s
+  let (s, esc) := escapedA d s
   if esc then (s, true)
-  else let (s, c) := s.byteAt s.p; (s, !(c == q))
+  else let (s, c) := s.byteAt d s.p; (s, !(c == q))
 
 def isNotPhpCloseToken (s : LexSt) : LexSt × Bool :=
-  if s.p + 1 == (s.data.size : Int) then (s, true)
+  if s.p + 1 == (d.size : Int) then (s, true)
   else
-    let (s, c) := s.byteAt s.p
+    let (s, c) := s.byteAt d s.p
     if c != 63 then (s, true)
-    else let (s, d) := s.byteAt (s.p + 1); (s, d != 62)
+    else let (s, d) := s.byteAt d (s.p + 1); (s, d != 62)
 
 def isNotNewLine (s : LexSt) : LexSt × Bool :=
-  let (s, c) := s.byteAt s.p
-  let (s, b) := s.byteAt (s.p - 1)
+  let (s, c) := s.byteAt d s.p
+  let (s, b) := s.byteAt d (s.p - 1)
   if c == 10 && b == 13 then (s, true) else (s, b != 10 && b != 13)
 
 /-- the `when` conditions of the transition function, by the code gofacts gives them -/
 def evalWhen (s : LexSt) (code : Nat) : LexSt × Bool :=
   match code with
-  | 0 => isNotPhpCloseToken s
-  | 1 => isNotNewLine s
-  | 2 => let (s, b) := isHeredocEnd s s.p; (s, !b)
-  | 3 => isNotStringVar s
-  | 4 => isNotStringEnd s 96
-  | 5 => isNotStringEnd s 34
+  | 0 => isNotPhpCloseToken d s
+  | 1 => isNotNewLine d s
+  | 2 => let (s, b) := isHeredocEnd d s s.p; (s, !b)
+  | 3 => isNotStringVar d s
+  | 4 => isNotStringEnd d s 96
+  | 5 => isNotStringEnd d s 34
   | _ => (s.setFault "unknown condition", false)
 
 /-- strconv.ParseInt(s, base, 0) succeeds: non-empty, digits of the base only, fits int64 -/
@@ -224,19 +228,19 @@ def cmpOp (op : Nat) (a b : Int) : Bool :=
   | 0 => a == b | 1 => a != b | 2 => a < b | 3 => a > b | 4 => a ≤ b | _ => a ≥ b
 
 def evalSC : SC → LexSt → LexSt × Bool
-  | .cmp op a b, s => let (s, x) := evalSE a s; let (s, y) := evalSE b s; (s, cmpOp op x y)
+  | .cmp op a b, s => let (s, x) := evalSE d a s; let (s, y) := evalSE d b s; (s, cmpOp op x y)
   | .and a b, s => let (s, x) := evalSC a s; if x then evalSC b s else (s, false)
   | .or a b, s => let (s, x) := evalSC a s; if x then (s, true) else evalSC b s
   | .not a, s => let (s, x) := evalSC a s; (s, !x)
   | .parseOk, s => (s, s.parseOk)
   | .docFlag, s => (s, s.docFlag)
-  | .heredocEnd e, s => let (s, i) := evalSE e s; isHeredocEnd s i
-  | .varStart e, s => let (s, b) := evalSE e s; (s, isValidVarNameStart b)
+  | .heredocEnd e, s => let (s, i) := evalSE d e s; isHeredocEnd d s i
+  | .varStart e, s => let (s, b) := evalSE d e s; (s, isValidVarNameStart b)
   | .sliceIs a b lit, s =>
-    let (s, x) := evalSE a s
-    let (s, y) := evalSE b s
-    if x < 0 || y < x || y > s.data.size then (s.setFault "slice", false)
-    else (s, y - x == lit.length && (List.range lit.length).all (fun k => (s.data[x.toNat + k]?).map (·.toNat) == lit[k]?))
+    let (s, x) := evalSE d a s
+    let (s, y) := evalSE d b s
+    if x < 0 || y < x || y > d.size then (s.setFault "slice", false)
+    else (s, y - x == lit.length && (List.range lit.length).all (fun k => (d[x.toNat + k]?).map (·.toNat) == lit[k]?))
 
 def gotoPC (code : Nat) : PC := if code < 10000 then .st code else .tr code
 
@@ -256,9 +260,9 @@ def execSI : Nat → List SI → LexSt → LexSt × Option PC
     | (s, some pc) => (s, some pc)
     | (s, none) => execSI f r s
 def exec1 : Nat → SI → LexSt → LexSt × Option PC
-  | _, .setTe e, s => let (s, v) := evalSE e s; ({ s with te := v }, none)
-  | _, .setTs e, s => let (s, v) := evalSE e s; ({ s with ts := v }, none)
-  | _, .setP e, s => let (s, v) := evalSE e s; ({ s with p := v }, none)
+  | _, .setTe e, s => let (s, v) := evalSE d e s; ({ s with te := v }, none)
+  | _, .setTs e, s => let (s, v) := evalSE d e s; ({ s with ts := v }, none)
+  | _, .setP e, s => let (s, v) := evalSE d e s; ({ s with p := v }, none)
   | _, .setAct n, s => ({ s with act := n }, none)
   | _, .setCs n, s => ({ s with cs := n }, none)
   | _, .csFromStack, s =>
@@ -273,18 +277,18 @@ def exec1 : Nat → SI → LexSt → LexSt × Option PC
     else (s.setFault "stack index", none)
   | _, .tokPos, s => ({ s with tokPos := some (setTokenPosition s) }, none)
   | _, .addFF id a b, s =>
-    let (s, x) := evalSE a s
-    let (s, y) := evalSE b s
+    let (s, x) := evalSE d a s
+    let (s, y) := evalSE d b s
     -- addFreeFloatingToken slices data[ps:pe] and takes the position from the CURRENT ts / te
-    let s := if x < 0 || y < x || y > s.data.size then s.setFault "slice" else s
+    let s := if x < 0 || y < x || y > d.size then s.setFault "slice" else s
     let (sl, el, sp, ep) := setTokenPosition s
     ({ s with ffs := s.ffs ++ [{ id := id, sp := sp, ep := ep, sl := sl, el := el }] }, none)
-  | _, .ungetCnt e, s => let (s, n) := evalSE e s; ({ s with p := s.p - n, te := s.te - n }, none)
+  | _, .ungetCnt e, s => let (s, n) := evalSE d e s; ({ s with p := s.p - n, te := s.te - n }, none)
   | _, .ungetStr lit, s =>
     -- strings.HasSuffix(string(data[ts:te]), lit)
-    let s := if s.ts < 0 || s.te < s.ts || s.te > s.data.size then s.setFault "slice" else s
+    let s := if s.ts < 0 || s.te < s.ts || s.te > d.size then s.setFault "slice" else s
     let n : Int := lit.length
-    if s.te - s.ts ≥ n && (List.range lit.length).all (fun k => (s.data[(s.te - n).toNat + k]?).map (·.toNat) == lit[k]?)
+    if s.te - s.ts ≥ n && (List.range lit.length).all (fun k => (d[(s.te - n).toNat + k]?).map (·.toNat) == lit[k]?)
     then ({ s with p := s.p - n, te := s.te - n }, none) else (s, none)
   | _, .call st fnext, s =>
     let s := growStack s
@@ -297,30 +301,30 @@ def exec1 : Nat → SI → LexSt → LexSt × Option PC
     ({ s with top := t, cs := cs, p := s.p + 1 }, none)
   | _, .grow, s => (growStack s, none)
   | _, .err, s =>
-    let (s, c) := s.byteAt s.p
+    let (s, c) := s.byteAt d s.p
     ({ s with errs := s.errs ++ [(c.toNat, s.getLine s.ts, s.getLine (s.te - 1), s.ts, s.te)] }, none)
-  | _, .nlAppend e, s => let (s, v) := evalSE e s; ({ s with nl := NL.append s.nl v.toNat }, none)
+  | _, .nlAppend e, s => let (s, v) := evalSE d e s; ({ s with nl := NL.append s.nl v.toNat }, none)
   | _, .tok id, s => ({ s with tok := id }, none)
-  | _, .tokFirst, s => let (s, c) := s.byteAt s.ts; ({ s with tok := c.toNat }, none)
+  | _, .tokFirst, s => let (s, c) := s.byteAt d s.ts; ({ s with tok := c.toNat }, none)
   | _, .setBase n, s => ({ s with base := n }, none)
   | _, .setDigits a b, s =>
-    let (s, x) := evalSE a s
-    let (s, y) := evalSE b s
-    if x < 0 || y < x || y > s.data.size then (s.setFault "slice", none)
-    else ({ s with digits := ((s.data.extract x.toNat y.toNat).toList.filter (· != 95)) }, none)
+    let (s, x) := evalSE d a s
+    let (s, y) := evalSE d b s
+    if x < 0 || y < x || y > d.size then (s.setFault "slice", none)
+    else ({ s with digits := ((d.extract x.toNat y.toNat).toList.filter (· != 95)) }, none)
   | _, .parse b, s => ({ s with parseOk := parseIntOk s.digits (b.getD s.base) }, none)
   | _, .setDoc b, s => ({ s with docFlag := b }, none)
   | _, .lblStart, s => ({ s with lblS := s.p }, none)
   | _, .lblEnd, s => ({ s with lblE := s.p }, none)
   | _, .setLabel, s =>
-    if s.lblS < 0 || s.lblE < s.lblS || s.lblE > s.data.size then (s.setFault "slice", none)
-    else ({ s with label := (s.data.extract s.lblS.toNat s.lblE.toNat).toList }, none)
+    if s.lblS < 0 || s.lblE < s.lblS || s.lblE > d.size then (s.setFault "slice", none)
+    else ({ s with label := (d.extract s.lblS.toNat s.lblE.toNat).toList }, none)
   | _, .goto code, s => (s, some (gotoPC code))
   | _, .again, s => (s, some .again)
   | _, .out, s => (s, some .out)
   | f, .blk l, s => execSI f l s
   | f, .ite c t e, s =>
-    let (s, b) := evalSC c s
+    let (s, b) := evalSC d c s
     if b then execSI f t s else execSI f e s
   | f, .swAct cases, s =>
     match cases.find? (fun c => (c.1 : Int) == s.act) with
@@ -346,7 +350,7 @@ def mkScanProg (rows : List DFARow) (trs : List (Nat × List SI)) (eof : List (N
 
 /-- the transition out of state `n` on the byte at `p` -/
 def transition (pr : ScanProg) (n : Nat) (s : LexSt) : LexSt × Nat :=
-  let (s, b) := s.byteAt s.p
+  let (s, b) := s.byteAt d s.p
   match (pr.rows[n]?).getD [] with
   | [] => (s.setFault s!"no row for state {n}", 0)
   | [r] => (s, r.target b.toNat)
@@ -356,7 +360,7 @@ def transition (pr : ScanProg) (n : Nat) (s : LexSt) : LexSt × Nat :=
     if rs.all (fun x => x.target b.toNat == t0) then (s, t0)
     else
       let (s, vals) := r.conds.foldl (fun (acc : LexSt × List (Nat × Nat)) c =>
-        let (s, v) := evalWhen acc.1 c.1
+        let (s, v) := evalWhen d acc.1 c.1
         (s, acc.2 ++ [(c.1, if v then 1 else 0)])) (s, [])
       match (r :: rs).find? (fun x => x.conds.all (fun c => vals.contains c)) with
       | some x => (s, x.target b.toNat)
@@ -375,10 +379,10 @@ def stepPC (pr : ScanProg) (pc : PC) (s : LexSt) : LexSt × PC :=
   | .stCase n =>
     if n == 0 then ({ s with cs := 0 }, .out) else
     let s := if pr.fromState.contains n then { s with ts := s.p } else s
-    let (s, t) := transition pr n s
+    let (s, t) := transition d pr n s
     if t == 0 then ({ s with cs := 0 }, .out) else (s, gotoPC t)
   | .tr code =>
-    match execSI 10000 ((pr.trs[code - 10000]?).getD []) s with
+    match execSI d 10000 ((pr.trs[code - 10000]?).getD []) s with
     | (s, some pc) => (s, pc)
     | (s, none) => (s.setFault s!"action block {code} falls through", .out)
   | .testEof =>
@@ -393,7 +397,7 @@ def runPC (pr : ScanProg) : Nat → PC → LexSt → LexSt
   | 0, _, s => s.setFault "fuel"
   | f + 1, pc, s =>
     if pc == .out || s.fault.isSome then s
-    else let (s, pc) := stepPC pr pc s; runPC pr f pc s
+    else let (s, pc) := stepPC d pr pc s; runPC pr f pc s
 
 structure TokOut where
   id : Nat
@@ -406,20 +410,27 @@ structure TokOut where
 /-- `(*Lexer).Lex` -/
 def lexOne (pr : ScanProg) (s : LexSt) : LexSt × TokOut :=
   let s := { s with tok := 0, tokPos := none, ffs := [], lblS := 0, lblE := 0 }
-  let s := runPC pr (16 * (s.data.size + 64)) (if s.p == s.pe then .testEof else .resume) s
+  let s := runPC d pr (16 * (d.size + 64)) (if s.p == s.pe then .testEof else .resume) s
   -- epilogue
   let s := if s.ts > s.te then { s with te := s.ts } else s
-  let s := if s.ts < 0 || s.te > s.data.size then s.setFault "slice" else s
+  let s := if s.ts < 0 || s.te > d.size then s.setFault "slice" else s
   (s, { id := s.tok, ts := s.ts, te := s.te, pos := s.tokPos, ffs := s.ffs })
 
-/-- all tokens up to and including the first one with id 0 -/
+/-- the token's text is a slice of the source: `tkn.Value = lex.data[lex.ts:lex.te]` does not panic -/
+def TokOut.inBounds (t : TokOut) (size : Nat) : Bool := decide (0 ≤ t.ts) && decide (t.ts ≤ t.te) && decide (t.te ≤ (size : Int))
+
+/-- all tokens up to and including the first one with id 0; a token whose bounds are not a slice of the source
+    is Go's slice panic -/
 def lexAllModel (pr : ScanProg) : Nat → LexSt → List TokOut → LexSt × List TokOut
   | 0, s, acc => (s.setFault "token fuel", acc)
   | f + 1, s, acc =>
-    let (s, t) := lexOne pr s
-    if t.id == 0 || s.fault.isSome then (s, acc ++ [t]) else lexAllModel pr f s (acc ++ [t])
+    let (s, t) := lexOne d pr s
+    if !t.inBounds d.size then (s.setFault "slice", acc)
+    else if t.id == 0 || s.fault.isSome then (s, acc ++ [t]) else lexAllModel pr f s (acc ++ [t])
 
-def initLex (data : Array UInt8) (ge73 : Bool) (start : Nat) : LexSt :=
-  { data := data, ge73 := ge73, pe := data.size, cs := start }
+def initLex (ge73 : Bool) (start : Nat) : LexSt :=
+  { ge73 := ge73, pe := d.size, cs := start }
+
+end
 
 end PhpVerif
